@@ -8,6 +8,7 @@ import (
 	"encoding/json"
 	"errors"
 	"fmt"
+	"net"
 	"strconv"
 	"strings"
 	"testing"
@@ -69,6 +70,8 @@ type Scenario struct {
 	ShutAfter  int    `json:"shut_after"`
 	CtxMs      int    `json:"ctx_ms,omitempty"`
 	Transient  []int  `json:"transient,omitempty"`  // these accept / datagram-read attempts fail with a temporary, non-timeout error
+	Listen     bool   `json:"listen,omitempty"`     // the server is started with ListenAndServe (socket seam of the instrumented build) instead of ActivateAndServe
+	ReuseOpts  int    `json:"reuse_opts,omitempty"` // ListenAndServe: bit 0 ReusePort, bit 1 ReuseAddr
 	ShutB      bool   `json:"shutdown_b,omitempty"` // a second, concurrent Shutdown
 	Shut3      bool   `json:"shutdown_3,omitempty"` // a Shutdown after the first has returned
 }
@@ -134,7 +137,11 @@ func Gen(seed uint64, tier string) any {
 	sc.Start2 = core.Chance(r, 20)
 	sc.Early = !sc.Start2 && core.Chance(r, 12)
 	if !sc.Start2 && !sc.Early && core.Chance(r, 12) {
-		sc.FailStart = core.Pick(r, "bogus", "tcp-tls", "sockopt", "noreader")
+		sc.FailStart = core.Pick(r, "bogus", "tcp-tls", "sockopt", "noreader", "inuse")
+	}
+	sc.Listen = core.Chance(r, 40)
+	if sc.Listen {
+		sc.ReuseOpts = r.IntN(4)
 	}
 	sc.UDPSock = sc.Transport == "udp" && core.Chance(r, 50)
 	sc.PostYield = core.Chance(r, 35)
@@ -214,6 +221,7 @@ func Shrink(x any) []any {
 	flag(func(n *Scenario) *bool { return &n.Shut3 })
 	flag(func(n *Scenario) *bool { return &n.Decorate })
 	flag(func(n *Scenario) *bool { return &n.Spare })
+	flag(func(n *Scenario) *bool { return &n.Listen })
 	if sc.FailStart != "" {
 		n := cp()
 		n.FailStart = ""
@@ -299,6 +307,9 @@ type run struct {
 	res *core.Result
 
 	onUDPSock bool
+	viaListen bool  // the real start goes through ListenAndServe
+	listenErr error // what the next listen attempt is answered with
+	listens   int
 	stuckIn   string // set while a call that must not block is in progress
 	trialOver bool   // the start that cannot succeed, and the Shutdown that follows it, are over
 
@@ -403,6 +414,46 @@ func (x *run) ServeDNS(w dns.ResponseWriter, r *dns.Msg) {
 type streamOnlyReader struct{ dns.Reader }
 
 var errSockopt = errors.New("setsockopt: operation not permitted")
+var errInUse = errors.New("listen tcp 10.0.0.1:53: bind: address already in use")
+
+// the socket seam: what ListenAndServe's listen calls are answered with
+
+//go:norace
+func (x *run) listenTCP(network, addr string, reuseport, reuseaddr bool) (net.Listener, error) {
+	x.k.Yield("listen.tcp", 0)
+	x.k.Lock()
+	x.listens++
+	err := x.listenErr
+	if want := x.sc.ReuseOpts; err == nil && (reuseport != (want&1 != 0) || reuseaddr != (want&2 != 0)) {
+		x.res.Fail("S5", "listen-options", "ListenAndServe asked for a socket with reuseport=%v reuseaddr=%v, the server was configured with ReusePort=%v ReuseAddr=%v", reuseport, reuseaddr, want&1 != 0, want&2 != 0)
+	}
+	if err == nil && x.l == nil {
+		err = errors.New("listen: no stream socket in this scenario")
+	}
+	x.k.EffectLocked("listen " + network + " " + addr + " " + common.ErrStr(err))
+	x.k.Unlock()
+	if err != nil {
+		return nil, err
+	}
+	return x.l, nil
+}
+
+//go:norace
+func (x *run) listenUDP(network, addr string, reuseport, reuseaddr bool) (net.PacketConn, error) {
+	x.k.Yield("listen.udp", 0)
+	x.k.Lock()
+	x.listens++
+	err := x.listenErr
+	if err == nil && x.uc == nil {
+		err = errors.New("listen: no datagram socket in this scenario")
+	}
+	x.k.EffectLocked("listen " + network + " " + addr + " " + common.ErrStr(err))
+	x.k.Unlock()
+	if err != nil {
+		return nil, err
+	}
+	return common.ServerSocket(x.uc), nil
+}
 
 type serveTask struct {
 	x     *run
@@ -421,6 +472,9 @@ func (s *serveTask) RunEvent(time.Time) {
 			goto start
 		}
 	}
+	if s.c.name == "start-1" && x.sc.FailStart == "inuse" && !x.viaListen {
+		goto start
+	}
 	if s.c.name == "start-1" && x.sc.FailStart != "" && !x.sc.Start2 && !x.sc.Early {
 		// a start that cannot succeed must leave the server stopped
 		var err error
@@ -433,16 +487,38 @@ func (s *serveTask) RunEvent(time.Time) {
 			err = x.srv.ActivateAndServe()
 			x.srv.PacketConn, x.srv.Listener, x.srv.DecorateReader = keepPC, keepL, keepDR
 			k.Bump("fault.start_with_unusable_reader")
+		} else if x.sc.FailStart == "sockopt" && x.viaListen {
+			// ListenAndServe opens a socket of its own, which then refuses the options the UDP
+			// branch needs: the call must fail and must not leave that socket open
+			real := x.uc
+			x.uc = x.n.ListenUDP()
+			x.uc.OptsErr = errSockopt
+			err = x.srv.ListenAndServe()
+			trial := x.uc
+			x.uc = real
+			k.Bump("fault.setsockopt_refused")
+			if !trial.PacketConn.IsClosed() {
+				k.Lock()
+				x.res.Fail("S7", "socket-leaked-by-failed-start", "ListenAndServe failed (%v) but left the socket it had opened open", err)
+				k.Unlock()
+			}
 		} else if x.sc.FailStart == "sockopt" {
 			// the socket refuses the options the UDP branch needs
 			x.uc.OptsErr = errSockopt
 			err = x.srv.ActivateAndServe()
 			x.uc.OptsErr = nil
 			k.Bump("fault.setsockopt_refused")
-		} else {
-			x.srv.Net = x.sc.FailStart
+		} else if x.sc.FailStart == "inuse" {
+			// the address is taken: the listen call itself fails
+			x.listenErr = errInUse
 			err = x.srv.ListenAndServe()
-			x.srv.Net = ""
+			x.listenErr = nil
+			k.Bump("fault.listen_address_in_use")
+		} else {
+			keepNet, keepTLS := x.srv.Net, x.srv.TLSConfig
+			x.srv.Net, x.srv.TLSConfig = x.sc.FailStart, nil
+			err = x.srv.ListenAndServe()
+			x.srv.Net, x.srv.TLSConfig = keepNet, keepTLS
 		}
 		k.Lock()
 		x.res.Stats["oracle.S5_failed_start"]++
@@ -467,7 +543,12 @@ start:
 	s.c.callSeq, s.c.callT = k.Seq, time.Now()
 	k.EffectLocked("call " + s.c.name)
 	k.Unlock()
-	err := x.srv.ActivateAndServe()
+	var err error
+	if x.viaListen {
+		err = x.srv.ListenAndServe()
+	} else {
+		err = x.srv.ActivateAndServe()
+	}
 	k.Lock()
 	s.c.ret, s.c.retSeq, s.c.retT, s.c.err = true, k.Seq, time.Now(), common.ErrStr(err)
 	k.EffectLocked("ret " + s.c.name + " " + s.c.err)
@@ -847,13 +928,29 @@ func runIn(sc *Scenario, res *core.Result, verbose bool) {
 		srv.DecorateReader = (&common.Decorator{K: k, Slow: slow}).Decorate
 		srv.MsgAcceptFunc = (&common.YieldAccept{K: k, Slow: slow}).Accept
 	}
+	// ListenAndServe needs the socket seam; for udp it insists on a UDP socket
+	x.viaListen = sc.Listen && common.ListenSeam() && (sc.Transport != "udp" || (sc.UDPSock && common.UDPSeam))
+	if x.viaListen {
+		defer common.InstallSockets(&common.Sockets{ListenTCP: x.listenTCP, ListenUDP: x.listenUDP})()
+		srv.Addr = "10.0.0.1:53"
+		srv.ReusePort, srv.ReuseAddr = sc.ReuseOpts&1 != 0, sc.ReuseOpts&2 != 0
+		res.Bump("cover.started_with_ListenAndServe")
+	}
 	if sc.Transport == "tls" {
 		x.l = n.Listen()
 		scfg, _ := common.TLSConfigs()
-		srv.Listener = tls.NewListener(x.l, scfg)
+		if x.viaListen {
+			srv.Net, srv.TLSConfig = "tcp-tls", scfg
+		} else {
+			srv.Listener = tls.NewListener(x.l, scfg)
+		}
 	} else if sc.Transport == "tcp" {
 		x.l = n.Listen()
-		srv.Listener = x.l
+		if x.viaListen {
+			srv.Net = "tcp"
+		} else {
+			srv.Listener = x.l
+		}
 	} else {
 		x.uc = n.ListenUDP()
 		x.pc = x.uc.PacketConn
@@ -862,6 +959,9 @@ func runIn(sc *Scenario, res *core.Result, verbose bool) {
 			srv.PacketConn = common.ServerSocket(x.uc)
 			x.onUDPSock = true
 			res.Bump("cover.server_on_udp_socket")
+		}
+		if x.viaListen {
+			srv.Net, srv.PacketConn = "udp", nil
 		}
 		if sc.Spare {
 			x.l = n.Listen()
